@@ -82,6 +82,10 @@ type vrSys struct {
 	ended    []*vrSession // sessions that were created and deleted again (ids below lastProcessed)
 	gline    int32        // this job may apply GLINE (see vrApplyOne)
 	nickless *vrSession
+	focus    int32      // this job walks ONE published session through its whole life (see vrLifecycleStep)
+	fresh    *vrSession // that session, while it exists
+	stage    int
+	lives    int
 	pollStop context.CancelFunc
 	pollDone chan struct{}
 
@@ -111,6 +115,9 @@ func (s *vrSys) pick(r *rand.Rand) *vrSession {
 func (s *vrSys) any(r *rand.Rand) *vrSession {
 	s.mu.Lock()
 	defer s.mu.Unlock()
+	if atomic.LoadInt32(&s.focus) == 1 && s.fresh != nil && r.Intn(5) != 0 {
+		return s.fresh
+	}
 	switch r.Intn(10) {
 	case 0:
 		if len(s.ended) > 0 {
@@ -270,6 +277,8 @@ MaxSessions = 0
   [[IRC.Operators]]
     Name = "op"
     Password = "oppass"
+  [[IRC.Services]]
+    Password = "svcpass"
 [TrustedBridges]
   "bridgeauth" = "bridge1"
 `
@@ -491,7 +500,61 @@ func vrNick(r *rand.Rand) string {
 
 // one state-machine entry, chosen to cover the write paths of the IRC state;
 // arguments are existing and non-existing sessions, channels and nicknames
+// vrLifecycleStep applies the next entry in the life of one session that the other side of the job is using
+// at the same time: created, registered, joined, away, oper, renamed, gone -- and, every other life, a
+// session that authenticates as a services link, becomes one, introduces a pseudo-client and goes.  Every
+// field of a session that some entry writes is written here while the session is in use.
+func vrLifecycleStep(s *vrSys, r *rand.Rand) {
+	s.mu.Lock()
+	t, stage, life := s.fresh, s.stage, s.lives
+	s.mu.Unlock()
+	if t == nil {
+		nt, err := s.createSession()
+		if err != nil {
+			return
+		}
+		s.mu.Lock()
+		s.fresh, s.stage = nt, 0
+		s.lives++
+		s.mu.Unlock()
+		return
+	}
+	k := atomic.AddUint64(&s.nickSeq, 1)
+	var lines []string
+	if life%2 == 0 {
+		lines = []string{
+			fmt.Sprintf("NICK life%d", k), "USER life 0 * :Life", "JOIN #base", "AWAY :gone", "OPER op oppass",
+			fmt.Sprintf("NICK lifer%d", k), "MODE #base +t", "PRIVMSG #base :hi", "AWAY", "PART #base",
+		}
+	} else {
+		lines = []string{
+			"PASS :services=svcpass", "SERVER services.verif 1 :Services",
+			fmt.Sprintf(":services.verif NICK svc%d 1 1 svc services.verif services.verif 0 :Service", k),
+			fmt.Sprintf(":svc%d PRIVMSG base0 :notice", k), "PING :x",
+		}
+	}
+	if stage < len(lines) {
+		s.irc(t, lines[stage])
+		s.mu.Lock()
+		s.stage++
+		s.mu.Unlock()
+		return
+	}
+	s.deleteSession(t)
+	s.mu.Lock()
+	s.fresh = nil
+	s.ended = append(s.ended, t)
+	if len(s.ended) > 64 {
+		s.ended = s.ended[len(s.ended)-64:]
+	}
+	s.mu.Unlock()
+}
+
 func vrApplyOne(s *vrSys, r *rand.Rand) {
+	if atomic.LoadInt32(&s.focus) == 1 {
+		vrLifecycleStep(s, r)
+		return
+	}
 	sess := s.pick(r)
 	ch := vrChan(r)
 	n := 19
@@ -641,6 +704,14 @@ func init() {
 	d["HTTP.handlePostMessage"] = vrDriver{run: func(s *vrSys, r *rand.Rand) {
 		ch := vrChannels[r.Intn(len(vrChannels))]
 		lines := []string{"JOIN " + ch, "PRIVMSG " + ch + " :posted", "PART " + ch, "PING :p"}
+		if atomic.LoadInt32(&s.focus) == 1 {
+			// the session may be a services link by the time the line is applied: what a link sends
+			// carries a prefix (a line without one is outside the protocol and makes the server commands
+			// dereference a nil prefix -- not a data race, and not in the scope of C06 either)
+			for k := range lines {
+				lines[k] = ":someone " + lines[k]
+			}
+		}
 		// existing sessions, and ended / unknown / future ones (the handler
 		// then fails in session(): the miss path of GetAuth/GetSession)
 		s.postMessage(s.any(r), lines[r.Intn(len(lines))])
@@ -777,6 +848,7 @@ type vrJob struct {
 	B     string `json:"b"`
 	Iters int    `json:"iters"`
 	Gline bool   `json:"gline"`
+	Focus bool   `json:"focus"`
 }
 
 type vrPlan struct {
@@ -867,6 +939,11 @@ func TestVerifRace(t *testing.T) {
 			atomic.StoreInt32(&s.gline, 1)
 		} else {
 			atomic.StoreInt32(&s.gline, 0)
+		}
+		if job.Focus {
+			atomic.StoreInt32(&s.focus, 1)
+		} else {
+			atomic.StoreInt32(&s.focus, 0)
 		}
 		fmt.Fprintf(os.Stderr, "VERIF-JOB-BEGIN %d %s %s\n", job.ID, job.A, job.B)
 		t0 := time.Now()
